@@ -118,27 +118,39 @@ func (p *Path) mapLookup(m *Map, key Value, mt *types.Map) (Value, Value) {
 	if len(cands) == 0 {
 		return zv, false
 	}
-	// try an ITE chain
-	var res Value = zv
-	var okT Value = false
-	merged := true
-	for i := len(cands) - 1; i >= 0; i-- {
-		c := cands[i]
-		if c.eq.IsConst() {
-			res = copyVal(c.e.V)
-			okT = true
-			continue
+	// try an ITE chain (with the zero value for "absent")
+	build := func(base Value, baseOk Value, cs []cand) (Value, Value, bool) {
+		res, okT := base, baseOk
+		for i := len(cs) - 1; i >= 0; i-- {
+			c := cs[i]
+			if c.eq.IsConst() {
+				res = copyVal(c.e.V)
+				okT = true
+				continue
+			}
+			r, ok := p.mergeIte(c.eq, c.e.V, res, mt.Elem())
+			if !ok {
+				return nil, nil, false
+			}
+			res = r
+			okT = p.boolOr(c.eq, okT)
 		}
-		r, ok := p.mergeIte(c.eq, c.e.V, res, mt.Elem())
-		if !ok {
-			merged = false
-			break
-		}
-		res = r
-		okT = p.boolOr(c.eq, okT)
+		return res, okT, true
 	}
-	if merged {
+	if res, okT, merged := build(zv, false, cands); merged {
 		return res, okT
+	}
+	// the zero value has a different shape: decide presence first, then merge the candidates
+	var present Value = false
+	for _, c := range cands {
+		present = p.boolOr(present, termOrBool(c.eq))
+	}
+	if !p.decideVal(present) {
+		return zv, false
+	}
+	last := cands[len(cands)-1]
+	if res, _, merged := build(copyVal(last.e.V), true, cands[:len(cands)-1]); merged {
+		return res, true
 	}
 	// fork per candidate
 	for _, c := range cands {
@@ -146,7 +158,7 @@ func (p *Path) mapLookup(m *Map, key Value, mt *types.Map) (Value, Value) {
 			return copyVal(c.e.V), true
 		}
 	}
-	return zv, false
+	panic(pathAbort{abAssumed, "map lookup: no candidate feasible"})
 }
 
 func isSymDeep(v Value) bool {
